@@ -195,8 +195,12 @@ type extStyle struct {
 	JSONDisp bool // ... JSON decoder ... (a profile member is emitted)
 }
 
+// MixedCaseP2Name: a profile URI whose host (and path) are not all lower case
+const MixedCaseP2Name = "http://Attester.Example.COM/psa/Demo2"
+
 var extStyles = []extStyle{
 	{"ext-p2", P2, ExtP2Name, extP2Profile{}, []int64{-75100}, []string{"timestamp"}, true, true},
+	{"ext-p2-mixedcase-uri", P2, MixedCaseP2Name, dynProfile{MixedCaseP2Name, "ext-p2"}, []int64{-75100}, []string{"timestamp"}, true, true},
 	{"ext-p1", P1, ExtP1Name, extP1Profile{}, []int64{-75100}, []string{"timestamp"}, false, true},
 	{"inherit-p1", P1, InhP1Name, inheritProfile{P1}, nil, nil, false, false},
 	{"inherit-p2-oid", P2, InhP2OID, inheritProfile{P2}, nil, nil, true, true},
